@@ -36,7 +36,7 @@ def pack_events(events, widths, big, datatype='I'):
 def build(version='FCS3.0', pairs=(), data=b'', delim='/', supp_pairs=None, analysis_pairs=None,
           offsets_in='header', end_conv='last', pad_text=0, pad_data=0, pad_tail=0,
           analysis_in='header', supp_lead=True, trailing_text='', raw_text=None, raw_supp=None,
-          raw_analysis=None):
+          raw_analysis=None, analysis_lead=True):
     """Assemble HEADER + TEXT + [sTEXT] + DATA + [ANALYSIS].  pairs must NOT contain the offset
     keywords ($BEGINDATA ...); they are added here for 3.x with fixed-width values.
     Returns (bytes, layout dict)."""
@@ -76,7 +76,7 @@ def build(version='FCS3.0', pairs=(), data=b'', delim='/', supp_pairs=None, anal
     if raw_analysis is not None:
         atext = raw_analysis
     elif analysis_pairs is not None:
-        atext = encode_text(analysis_pairs, delim, lead=True)
+        atext = encode_text(analysis_pairs, delim, lead=analysis_lead)
     else:
         atext = None
     ab = ae = 0
